@@ -70,7 +70,7 @@ def evaluate(text: str) -> decimal.Decimal:
         if t[1] in '+-':
             take()
             v = atom()
-            return v if t[1] == '+' else -v
+            return v if t[1] == '+' else (v.copy_negate() if v else -v)   # a sign is exact; it is not an operation that rounds
         raise EvalError(f'unexpected {t}')
 
     def mul() -> decimal.Decimal:
